@@ -29,6 +29,9 @@ pub mod hex {
     pub fn decode(s: &str) -> Result<Vec<u8>, DecodeHexError> {
         if s.len() % 2 != 0 {
             Err(DecodeHexError::OddLength)
+        } else if !s.is_ascii() {
+            // slicing two bytes at a time is only sound for one-byte characters
+            Err(DecodeHexError::NonAscii)
         } else {
             (0..s.len()).step_by(2).map(|i| u8::from_str_radix(&s[i..i + 2], 16).map_err(|e| e.into())).collect()
         }
@@ -56,6 +59,7 @@ pub mod hex {
     #[derive(Debug, Clone, PartialEq, Eq)]
     pub enum DecodeHexError {
         OddLength,
+        NonAscii,
         ParseInt(ParseIntError),
     }
 
@@ -69,6 +73,7 @@ pub mod hex {
         fn fmt(&self, f: &mut fmt::Formatter) -> fmt::Result {
             match self {
                 DecodeHexError::OddLength => "input string has an odd number of bytes".fmt(f),
+                DecodeHexError::NonAscii => "input string has a character that is not a hex digit".fmt(f),
                 DecodeHexError::ParseInt(e) => e.fmt(f),
             }
         }
